@@ -739,12 +739,16 @@ def _():
         kw = dict(qbankfull=W.arr("area_distinct", np.float64) * 3.0, rivwth=W.arr("elev", np.float64) + 5.0,
                   manning=a["manning"], min_rivdph=a["min_rivdph"])
         if a["slp"]:
-            kw["rivslp"] = (W.arr("elevf", np.float64) + 1.0) / 1000.0
+            slp = (W.arr("elevf", np.float64) + 1.0) / 1000.0
+            if a["flat"]:  # flat / adverse reaches: slopes at and below the documented minimum slope (clipped by the code)
+                e = W.arr("elev", np.int64)
+                slp = np.where(e % 3 == 0, 0.0, np.where(e % 3 == 1, 1e-7, slp))
+            kw["rivslp"] = np.ascontiguousarray(slp)
         else:
             kw["zs"] = W.arr("elevf", np.float64)
             kw["rivdst"] = W.arr("elev", np.float64) * 10.0
         return W.flw.river_depth(**kw)
-    return (lambda rng, w: {"slp": rng.random() < 0.5, "manning": rng.choice([0.03, 0.05]), "min_rivdph": rng.choice([1, 0.5])}, call)
+    return (lambda rng, w: {"slp": rng.random() < 0.5, "flat": rng.random() < 0.5, "manning": rng.choice([0.03, 0.05]), "min_rivdph": rng.choice([1, 0.5])}, call)
 
 
 # ---- API surface tie -------------------------------------------------------------------------------
